@@ -72,9 +72,9 @@ pub fn gen_msg_sizes(sim: &Sim, k: u64, big: usize) -> Vec<usize> {
     (0..k)
         .map(|_| match sim.weighted(&[3, 3, 2, 1]) {
             0 => sim.pick(&[0usize, 1, 4, 5, 6]),
-            1 => sim.range(0, 200) as usize,
-            2 => sim.range(200, 5000) as usize,
-            _ => sim.range(5000, big as u64) as usize,
+            1 => sim.range(0, 200.min(big as u64)) as usize,
+            2 => sim.range(200.min(big as u64), 5000.min(big as u64)) as usize,
+            _ => sim.range(5000.min(big as u64), big as u64) as usize,
         })
         .collect()
 }
